@@ -1870,11 +1870,12 @@ struct Hist {
             } catch (harness_raise const&) { r = "bad_function_call"; }
             catch (std::bad_function_call const&) { r = "bad_function_call"; }
         } else if (op == "bool") { r = std::string("b=") + ((si ? static_cast<bool>(*s) : static_cast<bool>(*o[i])) ? "1" : "0"); }
-        else if (op == "eqnull") {
+        else if (op == "eqnull" || op == "nenull") {
+            // f == nullptr / f != nullptr; the mirrored forms nullptr == f / nullptr != f must agree
             bool e1 = si ? (*s == nullptr) : (*o[i] == nullptr), e2 = si ? (nullptr == *s) : (nullptr == *o[i]);
             bool n1 = si ? (*s != nullptr) : (*o[i] != nullptr), n2 = si ? (nullptr != *s) : (nullptr != *o[i]);
-            if (e1 != e2 || n1 != n2 || e1 == n1) return "!eqnull";
-            r = std::string("b=") + (n1 ? "1" : "0");
+            if (e1 != e2 || n1 != n2) return "!eqnull";
+            r = std::string("b=") + ((op == "eqnull" ? e1 : n1) ? "1" : "0");
         } else return "bad-op";
         return r + state();
     }
